@@ -79,54 +79,56 @@ theorem C24_light_min_max_over (H : OpsOK) (Q : QueriesOK) (anno : Nat → SI) (
 
 /-! ## with the proved interval operations discharged
 
-`add, sub, neg, not, zero_extend, extract, udiv, shl, lshr`, the join of `If`, and `ULT/ULE/UGT/UGE` are proved (C21, C22), so
-for these no hypothesis is needed.  `OpsRest` (mul, urem, and/or/xor, ashr, sign_extend, concat, the signed orderings, the
-meet behind `==`/`!=`) is consulted only if the AST uses one of them.  ASTs here have a value at every node (`DefBV`). -/
+`add, sub, neg, not, zero_extend, extract, udiv, shl, lshr`, the join of `If`, and the eight orderings are proved (C21, C22), so
+for these no hypothesis is needed.  `OpsRest` (mul, urem, and/or/xor, ashr, sign_extend, concat, the meet behind `==`/`!=`) is
+consulted only if the AST uses one of them.  ASTs here have a value at every node (`DefBV`); the annotations are in the form
+the constructor returns (`Nrm`, which is the only form Python holds), and the induction shows every intermediate abstract
+value has it too — that is what the signed orderings need. -/
 
 /-- bit-vector ASTs: only the obligations of the operations that are not proved remain, and only if the AST uses them -/
 theorem C24_convert_sound_rest (anno : Nat → SI) (env : Nat → Nat)
-    (hctx : ∀ i, (anno i).WF ∧ (anno i).mem (env i))
+    (hctx : ∀ i, (anno i).WF ∧ (anno i).mem (env i)) (hnrm : ∀ i, Nrm (anno i))
     (e : BV) (R : usesRestBV e = true → OpsRest) (hdef : DefBV env e)
     (o o' : Orders) (av : AV) (hwt : WTBV anno env e) (h : convBV anno e o = .ok (av, o'))
     (v : Nat) (hv : evalBV env e = some v) : av.si.WF ∧ av.si.bits = wd e ∧ av.si.mem v :=
-  let g := convBV_rest_good anno env hctx e o av o' R hdef hwt h
+  let g := (convBV_rest_good anno env hctx hnrm e o av o' R hdef hwt h).1
   ⟨g.1.1, g.1.2, (g.2 v hv).1⟩
 
 /-- **unconditional** for ASTs built from the proved operations: variables with annotations, constants, `+ - neg ~`,
-`ZeroExt`, `Extract`, `/u`, `<<`, `LShR`, `If`, the unsigned orderings and the Boolean connectives -/
+`ZeroExt`, `Extract`, `/u`, `<<`, `LShR`, `If`, the unsigned and signed orderings and the Boolean connectives -/
 theorem C24_fragment_sound (anno : Nat → SI) (env : Nat → Nat)
-    (hctx : ∀ i, (anno i).WF ∧ (anno i).mem (env i))
+    (hctx : ∀ i, (anno i).WF ∧ (anno i).mem (env i)) (hnrm : ∀ i, Nrm (anno i))
     (e : BV) (hfrag : usesRestBV e = false) (hdef : DefBV env e)
     (o o' : Orders) (av : AV) (hwt : WTBV anno env e) (h : convBV anno e o = .ok (av, o'))
     (v : Nat) (hv : evalBV env e = some v) : av.si.WF ∧ av.si.bits = wd e ∧ av.si.mem v :=
-  C24_convert_sound_rest anno env hctx e (fun hh => by rw [hfrag] at hh; cases hh) hdef o o' av hwt h v hv
+  C24_convert_sound_rest anno env hctx hnrm e (fun hh => by rw [hfrag] at hh; cases hh) hdef o o' av hwt h v hv
 
 /-- the same for Boolean ASTs -/
 theorem C24_fragment_bool_sound (anno : Nat → SI) (env : Nat → Nat)
-    (hctx : ∀ i, (anno i).WF ∧ (anno i).mem (env i))
+    (hctx : ∀ i, (anno i).WF ∧ (anno i).mem (env i)) (hnrm : ∀ i, Nrm (anno i))
     (c : BExp) (hfrag : usesRestB c = false) (hdef : DefB env c)
     (o o' : Orders) (br : BoolRes) (hwt : WTB anno env c) (h : convB anno c o = .ok (br, o'))
     (b : Bool) (hb : evalB env c = some b) : br.has b = true :=
-  convB_rest_good anno env hctx c o br o' (fun hh => by rw [hfrag] at hh; cases hh) hdef hwt h b hb
+  convB_rest_good anno env hctx hnrm c o br o' (fun hh => by rw [hfrag] at hh; cases hh) hdef hwt h b hb
 
 theorem C24_bool_sound_rest (anno : Nat → SI) (env : Nat → Nat)
-    (hctx : ∀ i, (anno i).WF ∧ (anno i).mem (env i))
+    (hctx : ∀ i, (anno i).WF ∧ (anno i).mem (env i)) (hnrm : ∀ i, Nrm (anno i))
     (c : BExp) (R : usesRestB c = true → OpsRest) (hdef : DefB env c)
     (o o' : Orders) (br : BoolRes) (hwt : WTB anno env c) (h : convB anno c o = .ok (br, o'))
     (b : Bool) (hb : evalB env c = some b) : br.has b = true :=
-  convB_rest_good anno env hctx c o br o' R hdef hwt h b hb
+  convB_rest_good anno env hctx hnrm c o br o' R hdef hwt h b hb
 
 /-- the query obligations are proved (C22_min_max_bound) -/
 theorem queriesOK : QueriesOK := ⟨fun s m x hs hx h => min_le s m x hs hx h, fun s m x hs hx h => le_max s m x hs hx h⟩
 
 /-- `SolverVSA.min/max` on an AST of the proved fragment: no hypothesis left -/
 theorem C24_fragment_min_max_over (anno : Nat → SI) (env : Nat → Nat)
-    (hctx : ∀ i, (anno i).WF ∧ (anno i).mem (env i))
+    (hctx : ∀ i, (anno i).WF ∧ (anno i).mem (env i)) (hnrm : ∀ i, Nrm (anno i))
     (e : BV) (hfrag : usesRestBV e = false) (hdef : DefBV env e)
     (o o' : Orders) (av : AV) (hwt : WTBV anno env e) (h : convBV anno e o = .ok (av, o'))
     (v : Nat) (hv : evalBV env e = some v) :
     (∀ m, av.si.min false = .ok (some m) → m ≤ v) ∧ (∀ m, av.si.max false = .ok (some m) → (v : Int) ≤ m) := by
-  obtain ⟨hw, _, hm⟩ := C24_fragment_sound anno env hctx e hfrag hdef o o' av hwt h v hv
+  obtain ⟨hw, _, hm⟩ := C24_fragment_sound anno env hctx hnrm e hfrag hdef o o' av hwt h v hv
   exact ⟨fun m hmin => min_le av.si m v hw hm hmin, fun m hmax => le_max av.si m v hw hm hmax⟩
 
 /-- non-vacuity and a bounded sanity fact: `If(x <u 4, x + 1, 0)` with `x ∈ 1[2,6]` at 3 bits -/
@@ -140,6 +142,10 @@ theorem test_eval_example :
 example : WTBV demoAnno (fun _ => 3) demoExpr := by
   simp only [demoExpr, WTBV, WTB, wd, demoAnno, new_bits]
   decide
+
+/-- a signed comparison is inside the proved fragment; annotations built by the constructor are normal -/
+example : usesRestB (.cmp .slt (.var 0 3) (.bin .sub (.var 0 3) (.const 1 3))) = false ∧ Nrm (demoAnno 0) :=
+  ⟨by decide, nrm_new _ _ _ _ (by decide)⟩
 
 /-- the demo expression lies in the proved fragment and has a value at every node -/
 example : usesRestBV demoExpr = false ∧ DefBV (fun _ => 3) demoExpr := by
